@@ -62,6 +62,7 @@ def run(ctx):
         "C05.table": "key set = full product of coordinate systems (x extra keys); every `returns` is a shape all wrappers accept and has the module's documented result kind",
         "C05.method-reach": "every dispatch site of a public Planar/Spatial/Lorentz method names an existing compute module and passes as many arguments as its dispatch() declares",
         "C05.own-group": "a dispatch site in a Planar/Spatial/Lorentz method uses the compute group of its own class whenever that group has a module of that name (a 3D method never silently computes the 2D quantity); only methods whose name ends in 2D/3D/4D use the planar/spatial/lorentz group that suffix names",
+        "C05.same-name": "a Planar/Spatial/Lorentz method whose name is the name of a compute module of its group dispatches to that module (Spatial.deltaeta -> spatial.deltaeta), not to a sibling with the same dispatch signature",
         "C05.module-of": "_compute_module_of(one, two) returns the module of the smaller dimension for each of the 9 dimension pairs, and that module has add/subtract/dot",
         "C05.same-dimension": "the nine arithmetic/comparison methods call _maybe_same_dimension_error(self, other, ...) on every path before dispatch; the helper raises TypeError iff dimensions differ; dim() maps Vector2D/3D/4D to 2/3/4",
         "C05.dimension-guards": "cross requires two 3D operands; deltaangle/deltaeta/deltaR/deltaR2 require a 3D or 4D other; deltaRapidityPhi(2) require a 4D other",
@@ -125,6 +126,9 @@ def run(ctx):
                 ctx.ob("C05.method-reach", f"{cls}.{name} -> {s.group}.{s.module}", ok, msg, None, f"src/vector/_methods.py:{s.line}",
                        sample={"method": f"{cls}.{name}", "site": s.as_dict()})
                 want_g = {"2D": "planar", "3D": "spatial", "4D": "lorentz"}.get(name[-2:], g)
+                if f"vector._compute.{g}.{name}" in L.mods:
+                    ctx.ob("C05.same-name", f"{cls}.{name} -> {s.group}.{s.module}", s.module == name,
+                           f"{cls}.{name} dispatches to {s.group}.{s.module} although the module {g}.{name} exists", None, f"src/vector/_methods.py:{s.line}")
                 own_exists = f"vector._compute.{want_g}.{s.module}" in L.mods  # a lower-dimensional quantity (no module of that name in the own group) is legitimately computed below
                 ctx.ob("C05.own-group", f"{cls}.{name} -> {s.group}.{s.module}", s.group == want_g or not own_exists,
                        f"{cls}.{name} dispatches to the {s.group} group; a method of {cls} named {name} computes in the {want_g} group", None, f"src/vector/_methods.py:{s.line}")
